@@ -7,7 +7,7 @@ PID = "C04"
 LEAN_MODULE = "NunVerif.Props.C04"
 THEOREMS = ["Nun.C04_same_messages_same_state", "Nun.C04_fanout_reaches_every_secondary", "Nun.C14_secondary_never_fans_out", "Nun.C14_fanout_bounded"]
 
-OPS = ["set a {v}", "set b {v}", "set a two words {v}", "remove a", "remove b", "increment n", "increment n 5", "set-safe a {ver} s{v}", "create-user u{v} pw", "set-permissions u1 rw a*",
+OPS = ["set a {v}", "set b {v}", "set a two words {v}", "remove a", "remove b", "increment n", "increment n 5", "increment n 0", "increment m{v} 0", "increment n -3", "remove n", "set-safe a {ver} s{v}", "create-user u{v} pw", "set-permissions u1 rw a*",
        "snapshot false", "create-db d{v} tk", "set n 7", "resolve {v} t r 1 res{v}"]
 
 def setup(net, k, rng):
